@@ -409,6 +409,32 @@ def directed_part(ctx: vlib.Ctx):
             probe(ctx, t, fam, ns, c["dec_o"], copy.deepcopy(c["input"]), True)
 
 
+def sync_union_order(t, ty, fam, ns):
+    """typing caches List[Union[a, b]] under the order-insensitive equality of unions: List[Union[b, a]] written later is the SAME object,
+    with the member order of the first spelling.  The library (rightly) follows the order of the object it is given, so the type tree
+    takes the member order from the real typing object, position by position."""
+    import typing
+    if t.kind == "union":
+        real = list(typing.get_args(ty))
+        objs = [gen.resolve(m, ns) for m in t.args]
+        new = []
+        for r in real:
+            for i, o in enumerate(objs):
+                if o == r and not any(t.args[i] is x for x in new):
+                    new.append(t.args[i])
+                    break
+        if len(new) == len(t.args):
+            t.args = new
+    elif t.kind in ("list", "tuplevar"):
+        sync_union_order(t.args[0], typing.get_args(ty)[0], fam, ns)
+    elif t.kind == "dict":
+        sync_union_order(t.args[1], typing.get_args(ty)[1], fam, ns)
+    elif t.kind == "data":
+        hints = typing.get_type_hints(ns[t.name])
+        for f in fam.get(t.name).fields:
+            sync_union_order(f.ty, hints[f.name], fam, ns)
+
+
 def union_part(ctx: vlib.Ctx):
     """round 7, directed, oracle only (unions are outside the Coq grammar): non-Optional unions with exactly ONE primitive member (and controls
     with two), any member order, at the top / below List / Dict / Tuple / in a dataclass field, against look-alike inputs (bool at int
@@ -442,17 +468,19 @@ def union_part(ctx: vlib.Ctx):
         else:
             h = gen.ClassSpec("data", sg.fresh("H"), mixin=rng.random() < 0.5, fields=[gen.FieldSpec("a", T("int")), gen.FieldSpec("u", u)])
             if rng.random() < 0.4:
-                h.fields.append(gen.FieldSpec("us", T("list", [u]), "factory:list", "field(default_factory=list)"))
+                h.fields.append(gen.FieldSpec("us", T("list", [copy.deepcopy(u)]), "factory:list", "field(default_factory=list)"))
             sg.fam.classes.append(h)
             t, wrap = T("data", name=h.name), (lambda x: {"a": 1, "u": x, "us": [x]})
         fam = sg.fam
         try:
             ns = fam.build()
-            dec = BasicDecoder(gen.resolve(t, ns))
+            ty = gen.resolve(t, ns)
+            dec = BasicDecoder(ty)
         except Exception as e:
             ctx.fail(f"codec for {gen.py_ann(t)} cannot be built: {type(e).__name__}: {e}",
                      {"entry": "codec_build", "source": fam.source(), "type": gen.py_ann(t), "expected": "ok"}, {"kind": "decoder-build"})
             continue
+        sync_union_order(t, ty, fam, ns)
         for x in junk:
             probe(ctx, t, fam, ns, dec, wrap(copy.deepcopy(x)), True)
         for n_ in t.walk():
